@@ -668,7 +668,8 @@ func findStylesheets(wrapperElement *utils.HTMLNode, deviceMediaType string, url
 		if mimeType == "" {
 			mimeType = "text/css"
 		}
-		mimeType = strings.TrimSpace(strings.SplitN(mimeType, ";", 2)[0])
+		// media types are case-insensitive
+		mimeType = utils.AsciiLower(strings.TrimSpace(strings.SplitN(mimeType, ";", 2)[0]))
 		// Only keep "type/subtype" from "type/subtype ; param1; param2".
 		if mimeType != "text/css" {
 			continue
@@ -679,7 +680,8 @@ func findStylesheets(wrapperElement *utils.HTMLNode, deviceMediaType string, url
 		}
 		media := strings.Split(mediaAttr, ",")
 		for i, s := range media {
-			media[i] = strings.TrimSpace(s)
+			// media types are case-insensitive
+			media[i] = utils.AsciiLower(strings.TrimSpace(s))
 		}
 		if !evaluateMediaQuery(media, deviceMediaType) {
 			continue
